@@ -44,7 +44,7 @@ def rand_cfg(rng, kinds=("DE", "DE2", "NM", "PW")):
     # constraint does not map the sub-box into itself, so it is not combined with it
     box2_at = rng.choice([None, None, None, 0, 2, 3]) if box in ("wide", "unit", "shifted", "negshift") and cons != "round" else None
     far = cons == "round" and box == "none" and rng.random() < 0.5
-    return dict(spell=spell, box2_at=box2_at, far=far, kind=kind, dim=dim, npop=rng.choice([4, 5, 6]),
+    return dict(init=rng.choice(["random", "random", "random", "multinormal", "sampled"]), spell=spell, box2_at=box2_at, far=far, kind=kind, dim=dim, npop=rng.choice([4, 5, 6]),
                 cost=rng.choice(["sphere", "abs", "plateau", "vector", "infwall"]),
                 cons=cons, inplace=rng.random() < 0.5, pen=rng.choice(["none", "abs", "quad"]), box=box,
                 tight=tight, clip=clip, cons_at=rng.choice([0, 0, 0, 1, 2, 3]), box_at=rng.choice([0, 0, 0, 1, 2, 4]),
